@@ -507,7 +507,7 @@ func init() {
 func init() {
 	vf.Register(vf.Sub[GHCase]{Name: "guarded-pigeonhole", Quick: 40, Thorough: 400, Gen: genGH, Check: checkGH, Floor: 0.3,
 		Classes: map[string]float64{"restart>0": 0.4},
-		Rule: "base = pigeonhole formula with 5..7 holes whose clauses each carry one of 1..3 guard literals; history: Solve, then for each guard in a drawn order: AppendClause of the unit clause falsifying it (sometimes also a clause over a new variable), Solve; the pigeonhole formula being minimally unsatisfiable, each verdict is known by construction (Unsat exactly when every guard is falsified) and every Sat model is evaluated on the whole conjunction; the last solves take hundreds to thousands of conflicts, with restarts and reductions, on a solver that has solved and been extended before; non-trivial = >= 200 conflicts in all"})
+		Rule:    "base = pigeonhole formula with 5..7 holes whose clauses each carry one of 1..3 guard literals; history: Solve, then for each guard in a drawn order: AppendClause of the unit clause falsifying it (sometimes also a clause over a new variable), Solve; the pigeonhole formula being minimally unsatisfiable, each verdict is known by construction (Unsat exactly when every guard is falsified) and every Sat model is evaluated on the whole conjunction; the last solves take hundreds to thousands of conflicts, with restarts and reductions, on a solver that has solved and been extended before; non-trivial = >= 200 conflicts in all"})
 }
 
 func TestMain(m *testing.M)   { vf.Main(m, "C09") }
@@ -516,5 +516,5 @@ func TestProp(t *testing.T)   { vf.RunAll(t) }
 func TestReplay(t *testing.T) { vf.ReplayEnv(t) }
 
 // native fuzz targets (thorough tier): the fuzzer mutates the byte stream that rapid decodes into generator choices
-func FuzzHistoryCNF(f *testing.F) { vf.FuzzNamed(f, "C09", "cnf-base") }
+func FuzzHistoryCNF(f *testing.F)  { vf.FuzzNamed(f, "C09", "cnf-base") }
 func FuzzHistoryCard(f *testing.F) { vf.FuzzNamed(f, "C09", "dense-cardinality") }
